@@ -110,6 +110,11 @@ def cli_scenarios():
         ("sync-full", Config(levels=3, ndisks=2), base + adds + [("cmd", "sync")], ("sync", "-F"), None),
         ("scrub", Config(levels=2, ndisks=2), base + adds + [("cmd", "sync")], ("scrub", "-p", "full"), ("dmg", "d2", "B")),
         ("fix", Config(levels=2, ndisks=2), base + adds + [("cmd", "sync")], ("fix",), ("lose", "d1")),
+        # the first file of a disk was touched since the sync (same bytes, other time-stamp: a per-block "file changed" verdict), every
+        # later block of that disk holds a silent error: per-task results of one stripe must not leak into the stripes that reuse its slot
+        ("scrub-touched-then-silent", Config(levels=1, ndisks=2),
+         [("write", "d1", "a0", 1024, 0), ("write", "d1", "b1", 9216, 0), ("write", "d2", "k", 10000, 0), ("cmd", "sync")],
+         ("scrub", "-p", "full"), [("touch", "d1", "a0", 1)] + [("dmg", "d1", "b1", i) for i in range(9)]),
     ]
 
 
@@ -129,6 +134,8 @@ def prepare(L, ops, inflight):
             F.damage_data_block(L, c, inflight[1], f.blocks[inflight[3] if len(inflight) > 3 else 0][1], "whole")
         elif inflight[0] == "lose":
             F.lose_disk(L, inflight[1])
+        elif inflight[0] == "touch":
+            X.apply_op(L, tuple(inflight))
 
 
 def outcome(L, res):
